@@ -266,7 +266,11 @@ def str_slice(I, v, lo, hi):
     a = z3.IntVal(0) if lo is None else norm_index(lo, n)
     b = n if hi is None else norm_index(hi, n)
     ln = z3.If(b > a, b - a, z3.IntVal(0))
-    return VStr(z3.simplify(z3.SubString(v.t, a, ln)), v.is_bytes)
+    r = z3.simplify(z3.SubString(v.t, a, ln))
+    if hi is None and not I.pure:
+        # s[:a] ++ s[a:] == s  (sound fact about slicing, helps the sequence solver)
+        I.assume(z3.Concat(z3.SubString(v.t, 0, a), r) == v.t)
+    return VStr(r, v.is_bytes)
 
 
 def str_index(I, v, i):
@@ -651,7 +655,10 @@ def dict_empty_value(I, vk):
     """the value a defaultdict / setdefault creates"""
     if isinstance(vk, List):
         arrs = [core.fresh('e', z3.ArraySort(z3.IntSort(), s)) for s in vk.ek.sorts()]
-        return VList(vk.ek, arrs, z3.IntVal(0), z3.IntVal(0))
+        nl = VList(vk.ek, arrs, z3.IntVal(0), z3.IntVal(0))
+        if vk.ek in (Str, Bytes):
+            I.assume(flat(nl) == zstr(''))
+        return nl
     if isinstance(vk, Set):
         return VSet(vk.ek, z3.K(vk.ek.sorts()[0], z3.BoolVal(False)))
     raise Unsupported('default value of %r' % vk)
